@@ -126,3 +126,13 @@ package style
 //@ ghost B int = allocBound()
 //@ modifies nothing
 //@ ensures result != nil && result.styles != nil && fresh(result)
+
+// GetAllStyles builds a fresh slice and writes nothing that existed before (used by serializeStyles: C05/C04/C13).
+//@ func (*StyleManager).GetAllStyles
+//@ props C05, C04
+//@ requires sm != nil
+//@ modifies nothing
+//@ ensures cap(result) == 0 || freshArr(result)
+//@ loop 1
+//@   invariant unchangedHeap()
+//@   invariant cap(styles) == 0 || arr(styles) >= old(allocBound())
